@@ -173,7 +173,7 @@ impl Prop for PtProp {
         let (d, l, k) = self.bounds(tier);
         let consist_part = if self.which == "C01" || self.which == "C09" { format!(" PLUS consists: {}", super::consist_lab::rule(self.which, tier)) } else { String::new() };
         format!(
-            "E-SEQ on real Locomotive objects driven like LocomotiveSimulation::solve_step: alphabet = {} letters (13 demands relative to the limits just published: {:?}; dt in {:?} (20 s for C01 only){}), every sequence of length <= {} (FULL), every sequence of length {} departing from the default letter (0.6M, dt=1, engine on) in <= 1 position (DEV(L,1)) on every powertrain configuration of the {} PT family (conventional + battery-electric), and every sequence of length {} with <= 2 departures (DEV(L,2)) on the star-design configurations. Oracle on every accepted step (= every prefix of every history). distinct_nontrivial = number of distinct behaviour signatures (unit type x traction/regen/dyn-brake/zero x which transient bound is active x which limit binds x engine command x dt, and rejected-letter x error kind).{}",
+            "E-SEQ on real Locomotive objects driven like LocomotiveSimulation::solve_step: alphabet = {} letters (14 demands relative to the limits just published: {:?}; dt in {:?} (20 s for C01 only){}), every sequence of length <= {} (FULL), every sequence of length {} departing from the default letter (0.6M, dt=1, engine on) in <= 1 position (DEV(L,1)) on every powertrain configuration of the {} PT family (conventional + battery-electric), and every sequence of length {} with <= 2 departures (DEV(L,2)) on the star-design configurations. Oracle on every accepted step (= every prefix of every history). distinct_nontrivial = number of distinct behaviour signatures (unit type x traction/regen/dyn-brake/zero x which transient bound is active x which limit binds x engine command x dt, and rejected-letter x error kind).{}",
             letters_for(self.which).len(),
             DEMANDS,
             DTS,
